@@ -88,6 +88,7 @@ func runC07(p *Prog, r *Report) {
 	c.rejectionGuards(prods)
 	c.literalRank(prods)
 	c7CommentTerminator(p, r)
+	c7ReservedUnconditional(p, r)
 }
 
 func (c *c7ctx) isNodeT(t types.Type) bool { return types.Identical(t, c.nodeT) }
@@ -1201,5 +1202,70 @@ func c7CommentTerminator(p *Prog, r *Report) {
 	}
 	if n == 0 {
 		r.Undec(rule, "comment-scanners", "-", "no loop searching for the `*/` terminator was recognised (anchors vanished)")
+	}
+}
+
+// R7.8: an identifier is reserved exactly when the reserved-word table says so. In the tokenizer the table lookup may be
+// guarded by "this token is an identifier" and by nothing else: any further condition (a length shortcut, say) lets some
+// reserved word through as an ordinary identifier.
+func c7ReservedUnconditional(p *Prog, r *Report) {
+	const rule = "R7.8-reserved-words"
+	n := 0
+	for _, fn := range p.Funcs {
+		if fnPkgPath(fn) != pParser || fn.Signature.Recv() == nil || fn.Parent() != nil {
+			continue
+		}
+		if rn := namedOf(fn.Signature.Recv().Type()); rn == nil || !strings.Contains(strings.ToLower(rn.Obj().Name()), "scanner") {
+			continue
+		}
+		for _, cl := range callsIn(fn) {
+			g := cl.Common().StaticCallee()
+			if g == nil || fnPkgPath(g) != pParser || g.Signature.Recv() != nil || g.Signature.Params().Len() != 1 || basicKind(g.Signature.Params().At(0).Type()) != types.String ||
+				g.Signature.Results().Len() != 1 || basicKind(g.Signature.Results().At(0).Type()) != types.Bool {
+				continue
+			}
+			readsGlobal := false
+			forEachInstr(g, func(in ssa.Instruction) {
+				for _, op := range in.Operands(nil) {
+					if _, ok := (*op).(*ssa.Global); ok {
+						readsGlobal = true
+					}
+				}
+			})
+			if !readsGlobal {
+				continue
+			}
+			n++
+			extra := ""
+			// only conditions evaluated once the token text exists count (earlier ones select the token, not the lookup)
+			var textDef *ssa.BasicBlock
+			if in, ok := cl.Common().Args[0].(ssa.Instruction); ok {
+				textDef = in.Block()
+			}
+			for _, gd := range guardsAt(cl.Block()) {
+				if textDef == nil || gd.If == nil || !textDef.Dominates(gd.If.Block()) {
+					continue
+				}
+				fg := flattenGuard(gd)
+				bo, ok := fg.Cond.(*ssa.BinOp)
+				okGuard := false
+				if ok && (bo.Op == token.EQL || bo.Op == token.NEQ) {
+					// a comparison of the token type (a named integer type) with a constant
+					_, cx := bo.X.(*ssa.Const)
+					_, cy := bo.Y.(*ssa.Const)
+					if (cx || cy) && namedOf(bo.X.Type()) != nil && basicKind(bo.X.Type()) != types.String {
+						okGuard = true
+					}
+				}
+				if !okGuard {
+					extra = "an additional condition guards the lookup"
+				}
+			}
+			r.Check(extra == "", rule, fnQual(fn)+":"+g.Name(), p.pos(cl.Pos()), "every identifier token is looked up in the reserved-word table",
+				"in "+fnShort(fn)+" the reserved-word lookup is skipped under a further condition ("+extra+"): some reserved word is then tokenised as an ordinary identifier and accepted where the grammar forbids it")
+		}
+	}
+	if n == 0 {
+		r.Undec(rule, "parser.scanner:reserved-lookup", "-", "the tokenizer's reserved-word lookup was not found (anchor vanished)")
 	}
 }
